@@ -42,3 +42,7 @@ GENERATORS.append(_extract_dof.gen_cfg_dof)
 # C20: output structure of VTKWriter.write and its section writers (IR of model/M_C20_CFG.v)
 from . import extract_vtk as _extract_vtk   # noqa: E402
 GENERATORS.append(_extract_vtk.gen_cfg_vtk)
+
+# C17: the jax.lax.custom_root call of ScalarRootFind.find_root (tangent solve and result post-processing as kernels, wiring flags)
+from . import extract_c17 as _extract_c17   # noqa: E402
+GENERATORS.append(_extract_c17.generate)
